@@ -40,6 +40,12 @@ def exemptOf (copy : String) : Exempt :=
 
 def allowedOf (l : List String) : List Str := l.map String.toList
 
+def stageOf : String → Option Stage
+  | "dotdot" => some .dotdot
+  | "symlink" => some .symlink
+  | "ext" => some .ext
+  | _ => none
+
 def perr : Except PErr Unit → String
   | .ok () => "ok"
   | .error .dotdot => "dotdot"
@@ -74,14 +80,22 @@ def handle (st : DState) (j : Json) : DState × Json :=
     match j.getObjValAs? String "p" with
     | .ok p =>
       let s := p.toList
-      let w := validatePathA st.fs fuel (exemptOf "write") (allowedOf Gen.allowedExt_write) st.cwd s
-      let v := validatePathB st.fs fuel (exemptOf "validate") (allowedOf Gen.allowedExt_validate) st.cwd s
-      let f := validatePathA st.fs fuel (exemptOf "fileops") (allowedOf Gen.allowedExt_fileops) st.cwd s
-      let rc : Json := match recheckRefuses st.fs fuel st.cwd s with
-        | .ok b => toJson b
-        | .error .fuel => "fuel"
-        | .error _ => "raise"
-      (st, Json.mkObj [("write", perr w), ("validate", perr v), ("fileops", perr f), ("recheck", rc)])
+      let run (copy : String) (allowed : List String) : String :=
+        match Gen.walkCfg.find? (·.1 == copy), (Gen.stageOrder.find? (·.1 == copy)).bind (fun e => e.2.mapM stageOf) with
+        | some (_, ue, g), some order => perr (validatePath st.fs fuel ⟨ue, g⟩ (exemptOf copy) (allowedOf allowed) st.cwd s order)
+        | _, _ => "unsupported"
+      let w := run "write" Gen.allowedExt_write
+      let v := run "validate" Gen.allowedExt_validate
+      let f := run "fileops" Gen.allowedExt_fileops
+      let rcOf (who : String) : Json :=
+        match Gen.recheckUsesExists.find? (·.1 == who) with
+        | some (_, ue) => match recheckRefuses st.fs fuel ue st.cwd s with
+          | .ok b => toJson b
+          | .error .fuel => "fuel"
+          | .error _ => "raise"
+        | none => "unsupported"
+      let rc := Json.mkObj [("WriteTool.execute", rcOf "WriteTool.execute"), ("atomic_write_octave", rcOf "atomic_write_octave")]
+      (st, Json.mkObj [("write", Json.str w), ("validate", Json.str v), ("fileops", Json.str f), ("recheck", rc)])
     | .error e => (st, Json.mkObj [("unsupported", e)])
   | .ok "os" =>
     match j.getObjValAs? (Array String) "parts" with
@@ -95,7 +109,7 @@ def handle (st : DState) (j : Json) : DState × Json :=
         | .ok p => outPath p
         | .error .fuel => "fuel"
         | .error _ => "raise"
-      (st, Json.mkObj [("exists", ex), ("islink", pyIsSymlink st.fs fuel parts), ("resolve", rs)])
+      (st, Json.mkObj [("exists", ex), ("islink", match pyIsSymlink st.fs fuel parts with | .ok b => toJson b | .error .fuel => "fuel" | .error _ => "raise"), ("resolve", rs)])
     | .error e => (st, Json.mkObj [("unsupported", e)])
   | .ok "schema" =>
     let r : Except String Json := do
@@ -125,13 +139,15 @@ def handle (st : DState) (j : Json) : DState × Json :=
     let r : Except String Json := do
       let base ← j.getObjValAs? (Array String) "base"
       let u ← j.getObjValAs? String "u"
-      pure <| match validateSourceUri st.fs fuel (strs base) u.toList with
-        | .ok q => Json.mkObj [("r", "ok"), ("q", outPath q)]
-        | .error .absolute => Json.mkObj [("r", "absolute")]
-        | .error .resolveFailed => Json.mkObj [("r", "resolveFailed")]
-        | .error .outside => Json.mkObj [("r", "outside")]
-        | .error .loopRaise => Json.mkObj [("r", "loopRaise")]
-        | .error .fuel => Json.mkObj [("r", "fuel")]
+      let lp : Json := toJson (uriMeetsLoop st.fs fuel (strs base) u.toList)
+      let (tag, q) : String × Option (List Str) := match validateSourceUri st.fs fuel Gen.sourceUriFixpoint (strs base) u.toList with
+        | .ok q => ("ok", some q)
+        | .error .absolute => ("absolute", none)
+        | .error .resolveFailed => ("resolveFailed", none)
+        | .error .outside => ("outside", none)
+        | .error .loopRaise => ("loopRaise", none)
+        | .error .fuel => ("fuel", none)
+      pure (Json.mkObj ([("r", (tag : Json)), ("loop", lp)] ++ (match q with | some q => [("q", outPath q)] | none => [])))
     match r with
     | .ok o => (st, o)
     | .error e => (st, Json.mkObj [("unsupported", e)])
